@@ -892,3 +892,4 @@ theorem shapeS_word_ws {c : Char} {rest ws : Chars} (hc : isIdStart c = true) (h
     kwExprColon?_append_ws "while" _ _ _ (by decide) hws, else?_append_ws _ _ hws]
 
 end C10
+
